@@ -503,7 +503,13 @@ class World:
                 new = model | set(others)
             elif op == "update2":
                 k = rnd.randint(0, len(objs))
-                ret = S.update(objs[:k], set(objs[k:]))
+                args = [objs[:k], objs[k:] if bad else set(objs[k:])]
+                if rnd.random() < 0.35:
+                    # the collection itself among the iterables
+                    args.insert(rnd.randint(0, len(args)), S)
+                    self.ctx.count("c16:set_update_args_include_itself")
+                    self.case.ops[-1]["itself_among_arguments"] = True
+                ret = S.update(*args)
                 new = model | set(others)
             elif op == "ior":
                 S |= (operand if operand is not None else (
